@@ -125,24 +125,85 @@ def build_call(program, op, ty, nums):
     return fn, args, post
 
 
-def run(e, dom, op, ty, make_nums, max_paths=64, stubs=None):
-    """make_nums(dom) -> list of Num.  Returns list of (path, [Num] flattened outcome, raw value)."""
+class MergedPath:
+    """All non-panicking paths of a run folded into one if-then-else result (see run(merge=True))."""
+
+    def __init__(self):
+        self.conds = []
+        self.decisions = []
+        self.side = []
+        self.deltas = []
+        self.nonzero = []
+        self.panic = None
+        self.panic_conds = []
+        self.calls = []
+        self.n_paths = 1
+
+    def cond(self):
+        return z3.BoolVal(True)
+
+
+def _rename_fresh(terms, idx):
+    """Fresh symbols (d!k, q!k, K!k) are numbered per run; make them unique per path before merging."""
+    from z3 import z3util
+    seen = {}
+    for t in terms:
+        for v in z3util.get_vars(t):
+            nm = str(v)
+            if nm[:2] in ("d!", "q!", "K!") and nm not in seen:
+                seen[nm] = (v, z3.Const("%s!p%d" % (nm, idx), v.sort()))
+    subs = list(seen.values())
+    return (lambda t: z3.substitute(t, *subs) if subs else t)
+
+
+def _merge(dom, rows):
+    """rows: [(path, [Num], value)] -> (MergedPath, [Num])"""
+    ok = [(p, nums) for (p, nums, _) in rows if p.panic is None]
+    bad = [p for (p, _, _) in rows if p.panic is not None]
+    mp = MergedPath()
+    mp.n_paths = len(rows)
+    if not ok:
+        raise Unsupported("every path panics: %s" % bad[0].panic)
+    n = len(ok[0][1])
+    if any(len(nums) != n for (_, nums) in ok):
+        raise Unsupported("paths return values of different shape")
+    if len(ok) == 1 and not bad:
+        p, nums = ok[0]
+        mp.side, mp.deltas, mp.nonzero, mp.calls = list(p.side), list(p.deltas), list(p.nonzero), list(p.calls)
+        return mp, nums
+    renamed = []
+    for idx, (p, nums) in enumerate(ok):
+        terms = [x.t for x in nums] + list(p.conds) + list(p.side) + list(p.deltas) + list(p.nonzero)
+        rn = _rename_fresh(terms, idx)
+        cond = z3.And(*[rn(c) for c in p.conds]) if p.conds else z3.BoolVal(True)
+        renamed.append((cond, [rn(x.t) for x in nums]))
+        mp.side += [z3.Implies(cond, rn(sd)) for sd in p.side]
+        mp.deltas += [rn(d) for d in p.deltas]
+        mp.nonzero += [z3.If(cond, rn(dv), z3.RealVal(1)) for dv in p.nonzero]
+        mp.calls = sorted(set(mp.calls) | set(p.calls))
+    out = []
+    for i in range(n):
+        term = renamed[-1][1][i]
+        for cond, vals in reversed(renamed[:-1]):
+            term = z3.If(cond, vals[i], term)
+        out.append(Num(dom, term))
+    for idx, p in enumerate(bad):
+        rn = _rename_fresh(list(p.conds) + list(p.side), 1000 + idx)
+        mp.panic_conds.append((z3.And(*[rn(c) for c in p.conds] + [rn(sd) for sd in p.side]) if p.conds or p.side else z3.BoolVal(True),
+                               p.panic))
+    return mp, out
+
+
+def run(e, dom, op, ty, make_nums, max_paths=64, stubs=None, merge=True, label=None):
+    """make_nums(dom) -> list of Num.
+    merge=True (default): returns ONE row [(MergedPath, [Num], None)] in which every output number is an if-then-else
+    over the path conditions of all non-panicking paths, so that obligations automatically cover every branch the code
+    takes (a data-dependent special case added to a kernel is part of the term).  Reachable panicking paths become a
+    'no panic' obligation.  merge=False: one row (path, [Num] flattened outcome, raw value) per path."""
     from interp import Interp
     it = Interp(e.program, dom, max_paths=max_paths, stubs=stubs)
-    holder = {}
-
-    def mk(d):
-        nums = make_nums(d)
-        fn, args, post = build_call(e.program, op, ty, nums)
-        holder["post"] = post
-        holder["fn"] = fn
-        return args
-
-    # need the function before explore: build once with throw-away symbols
     dom.reset()
     fn, _, _ = build_call(e.program, op, ty, make_nums(dom))
-    out = []
-    # explore() calls mk per run; capture post per run via closure list
     posts = []
 
     def mk2(d):
@@ -152,6 +213,7 @@ def run(e, dom, op, ty, make_nums, max_paths=64, stubs=None):
         return args
 
     paths = it.explore(fn, mk2)
+    out = []
     for p, post in zip(paths, posts):
         if p.panic is not None:
             out.append((p, None, None))
@@ -159,4 +221,28 @@ def run(e, dom, op, ty, make_nums, max_paths=64, stubs=None):
             v = post(p.result)
             out.append((p, flat(v), v))
     e.rep.functions.update(it.functions_run)
-    return out
+    if not merge:
+        return out
+    mp, nums = _merge(dom, out)
+    if mp.panic_conds and hasattr(e, "prove"):
+        for k, (pc, msg) in enumerate(mp.panic_conds):
+            e.prove("%s:%s:%s:no-panic-%d" % (label or "run", op, ty, k),
+                    "no input reaches the panicking path of %s on %s (%s)" % (op, ty, msg), [], z3.Not(pc),
+                    dom_name=getattr(dom, "name", "?").lower(), functions=sorted(it.functions_run)[:4], role="kernel-panic")
+    return [(mp, nums, None)]
+
+
+def run_fn(e, dom, fn_name, make_args, stubs=None, label=None, max_paths=64):
+    """Explore a free function (by path suffix) and merge its paths like run(merge=True). Returns (MergedPath, [Num])."""
+    from interp import Interp
+    it = Interp(e.program, dom, max_paths=max_paths, stubs=stubs)
+    fn = e.program.find(fn_name)
+    paths = it.explore(fn, make_args)
+    rows = [(p, None if p.panic is not None else flat(p.result), None) for p in paths]
+    e.rep.functions.update(it.functions_run)
+    mp, nums = _merge(dom, rows)
+    if mp.panic_conds and hasattr(e, "prove"):
+        for k, (pc, msg) in enumerate(mp.panic_conds):
+            e.prove("%s:%s:no-panic-%d" % (label or "run", fn_name, k), "no input reaches the panicking path of %s (%s)" % (fn_name, msg),
+                    [], z3.Not(pc), dom_name=getattr(dom, "name", "?").lower(), functions=[fn_name], role="kernel-panic")
+    return mp, nums
